@@ -144,6 +144,12 @@ BODY_KINDS = {
     "multipart_files": (lambda c: {"type": "object", "properties": {"fs": {"type": "array", "items": {"type": "string", "format": "binary"}},
                                                                       "tags": {"type": "array", "items": {"type": "string"}}}},
                         [{"fs": ["BYTES:one", "BYTES:two"], "tags": ["t1"]}], ["multipart/form-data"]),
+    # a form body with array-valued properties: one name=value pair per item (nothing for an empty array), scalars next to them
+    "form_arrays": (lambda c: {"type": "object", "required": ["a"], "properties": {
+        "a": {"type": "string"}, "tags": {"type": "array", "items": {"type": "string"}}, "ids": {"type": "array", "items": {"type": "integer"}},
+        "kinds": {"type": "array", "items": {"type": "string", "enum": ["k1", "k2"]}}, "days": {"type": "array", "items": {"type": "string", "format": "date"}}}},
+        [{"a": "x", "tags": ["a b", "c"], "ids": [1, 2, 3]}, {"a": "y", "tags": []}, {"a": "z", "kinds": ["k1", "k2"], "days": ["2020-01-02"]}, {"a": "w", "tags": ["only"]}],
+        ["application/x-www-form-urlencoded"]),
     "multipart_tags": (lambda c: {"type": "object", "properties": {"tags": {"type": "array", "items": {"type": "string"}}, "n": {"type": "number"}}},
                        [{"tags": ["t1", "t2"]}, {"n": 1.5}], ["multipart/form-data"]),
 }
@@ -506,7 +512,7 @@ def _check_body(r, b, inst, key):
             out.append({"oracle": "body", "site": site, "key": key, "detail": f"raw body {r['content']!r} != {inst!r}"})
     elif base_media == "application/x-www-form-urlencoded":
         got = sorted(urllib.parse.parse_qsl(r["content"].decode(), keep_blank_values=True))
-        exp = sorted((k, scalar_text(v)) for k, v in inst.items())
+        exp = sorted((k, scalar_text(x)) for k, v in inst.items() for x in (v if isinstance(v, list) else [v]))
         if got != exp:
             out.append({"oracle": "body", "site": site, "key": key, "detail": f"form body {got!r} != {exp!r}"})
     else:
